@@ -699,9 +699,19 @@ func wrapDisabled(d, exp Exp, lookup *TypeLookup) (Exp, error) {
 	case *SplitExp:
 		switch v := d.Value.(type) {
 		case *RefExp:
-			exp = &DisabledExp{
-				Disabled: v,
-				Value:    exp,
+			if _, ok := v.Forks[d.Call]; ok {
+				// Just the one fork of the ref.
+				exp = &DisabledExp{
+					Disabled: v,
+					Value:    exp,
+				}
+			} else {
+				// The control is one element of the collection
+				// being split.
+				exp = &DisabledExp{
+					Disabled: d,
+					Value:    exp,
+				}
 			}
 		case *ArrayExp:
 			arr := *v
